@@ -301,13 +301,16 @@ XGrid == << Zero, Q(1, 2), One, Two, R(3) >>
 TGrid == << Zero, Q(1, 4), One, Q(3, 2), Two >>
 
 \* observation grids / times: same, a coinciding subset, shifted points
-GObsSet == [same |-> XGrid, sub |-> << XGrid[2], XGrid[5] >>, shift |-> << Q(1, 4), Q(3, 2), Q(5, 2) >>]
+\* shift5: as many nodes as the solution grid, none of them a solution node except the first (a grid comparison that
+\* looks at the length - or at the first node - only would take it for the solution grid and restrict)
+GObsSet == [same |-> XGrid, sub |-> << XGrid[2], XGrid[5] >>, shift |-> << Q(1, 4), Q(3, 2), Q(5, 2) >>,
+            shift5 |-> << Zero, Q(3, 4), Q(3, 2), Q(5, 2), Q(11, 4) >>]
 TObsSet == [final |-> << TGrid[5] >>, all |-> TGrid, sub |-> << TGrid[2], TGrid[4] >>, shift |-> << Q(1, 2), Q(7, 4) >>,
             one |-> << Q(3, 4) >>]
 
 TobsCases ==
     { [kind |-> "tobs", c |-> c, g |-> g, t |-> t, omap |-> mp] :
-        c \in Polys2, g \in {"same", "sub", "shift"}, t \in {"final", "all", "sub", "shift", "one"}, mp \in {"id", "sq"} }
+        c \in Polys2, g \in {"same", "sub", "shift", "shift5"}, t \in {"final", "all", "sub", "shift", "one"}, mp \in {"id", "sq"} }
 
 DataT(c) == F([i \in 1..Len(XGrid) |-> [j \in 1..Len(TGrid) |-> Poly2(c, XGrid[i], TGrid[j])]])
 ExpectT(k) == F([i \in 1..Len(GObsSet[k.g]) |-> [j \in 1..Len(TObsSet[k.t]) |-> Poly2(k.c, GObsSet[k.g][i], TObsSet[k.t][j])]])
@@ -333,11 +336,13 @@ EmitTobs ==
     (Emit /\ Run("tobs")) =>
         PrintT("@@CASE " \o ToJson([kind |-> "tobs", c |-> pb.c, x |-> XGrid, T |-> TGrid, g |-> pb.g, t |-> pb.t, omap |-> pb.omap,
                                     gobs |-> GObsSet[pb.g], tobs |-> TObsSet[pb.t], data |-> DataT(pb.c),
-                                    fwd |-> MapRows(pb.omap, ExpectT(pb))]) \o " @@END")
+                                    \* shift5: the squares of the cubic data at quarter nodes exceed 32 bits - the replayer applies the map
+                                    mapped |-> pb.g # "shift5",
+                                    fwd |-> IF pb.g = "shift5" THEN ExpectT(pb) ELSE MapRows(pb.omap, ExpectT(pb))]) \o " @@END")
 
 \* steady class: quadratic interpolant, data of degree <= 2 on five nodes
 Polys1 == { <<<<1>>, <<-2>>, <<3>>>>, <<<<0>>, <<1>>>> }
-SobsCases == { [kind |-> "sobs", c |-> c, g |-> g, omap |-> mp] : c \in Polys1, g \in {"same", "sub", "shift"}, mp \in {"id", "sq", "first"} }
+SobsCases == { [kind |-> "sobs", c |-> c, g |-> g, omap |-> mp] : c \in Polys1, g \in {"same", "sub", "shift", "shift5"}, mp \in {"id", "sq", "first"} }
 DataS(c)   == F([i \in 1..Len(XGrid) |-> Poly2(c, XGrid[i], One)])
 ExpectS(k) == F([i \in 1..Len(GObsSet[k.g]) |-> Poly2(k.c, GObsSet[k.g][i], One)])
 SobsExact ==
